@@ -408,7 +408,10 @@ def eventAsText(
 
     timeStamp = ""
     if includeTimestamp:
-        timeStamp = "".join([formatTime(cast(float, event.get("log_time", None))), " "])
+        try:
+            timeStamp = formatTime(cast(float, event.get("log_time", None))) + " "
+        except Exception:
+            timeStamp = "- "
 
     system = ""
     if includeSystem:
